@@ -16,6 +16,7 @@ MAX_ALIGN bytes is *out of domain*: it is counted, never judged.
 """
 import io
 import os
+import time
 import resource
 import signal
 import sys
@@ -239,6 +240,7 @@ def run_cli_inproc(files, fs, charset, fmt, extra_argv, watchdog):
     res = {"exit": None, "fmt": fmt, "argv": sys.argv[1:]}
     old_handler = signal.signal(signal.SIGALRM, impl._alarm)
     signal.setitimer(signal.ITIMER_REAL, watchdog)
+    t_start = time.time()
     try:
         try:
             mcli.main_cli()
@@ -264,6 +266,9 @@ def run_cli_inproc(files, fs, charset, fmt, extra_argv, watchdog):
         m["compiler"].open_device = saved[3]
     res["out"] = out.getvalue()
     res["err"] = err.getvalue()
+    if time.time() - t_start >= watchdog * 0.97 and not res.get("hang"):
+        # the watchdog fired but a secondary exception (or the catch-all of main_cli) swallowed it
+        res["hang"] = impl.innermost_pdpy11_frame(res["err"]) if BANNER in res["err"] else "?"
     res["written"] = written
     return res
 
@@ -296,10 +301,14 @@ def judge(case, watchdog=None, cli=True):
     try:
         saved_fs = impl.FakeFS
         impl.FakeFS = RealMissFS        # impl.assemble builds its file system from this name
+        t_start = time.time()
         try:
             r = impl.assemble(files, charset=charset, fs=fs, watchdog=watchdog)
         finally:
             impl.FakeFS = saved_fs
+        if r["outcome"] == "crash" and time.time() - t_start >= watchdog * 0.97:
+            # the asynchronous watchdog fired inside a context manager and a secondary exception replaced it
+            r["outcome"] = "hang"
     except WorkLimit as w:
         res["p1"] = "out-of-domain"
         res["ood"] = str(w)
@@ -315,10 +324,14 @@ def judge(case, watchdog=None, cli=True):
             V.append({"signature": sig_of("crash", r["crash"]), "what": "assembling died with an internal exception instead of a result or a reported error", "detail": r["crash"]})
         return res
     if r["outcome"] == "hang":
-        V.append({"signature": f"hang@{r['crash']['frame']}", "what": f"assembling did not terminate within the {watchdog:g} s watchdog", "detail": r["crash"]})
+        V.append({"signature": "hang", "what": f"assembling did not terminate within the {watchdog:g} s watchdog", "detail": r["crash"]})
         return res
     if r["outcome"] == "failed" and not has_error(r["diags"]):
         V.append({"signature": "silent-failure", "what": "assembling failed without any error diagnostic", "detail": {"diags": [d[:2] for d in r["diags"]]}})
+    if case.get("acyclic") and "recursive-definition" in res["diag_ids"]:
+        # program-level counterpart of C08_cycle_reported_only_for_cycles: the input has no definition cycle by construction
+        V.append({"signature": "spurious-cycle-report", "what": "a 'recursive-definition' error was reported for a program that has no definition cycle",
+                  "detail": {"diags": [d[:2] for d in r["diags"]][:6]}})
     if r["outcome"] not in ("ok", "failed"):
         V.append({"signature": "harness:" + str(r["outcome"]), "what": "unexpected outcome class from impl.assemble", "detail": r})
         return res
@@ -338,7 +351,7 @@ def judge(case, watchdog=None, cli=True):
             continue
         where = {"argv": c["argv"]}
         if c.get("hang"):
-            V.append({"signature": f"cli-hang@{c['hang']}", "what": f"the command line did not terminate within the {watchdog:g} s watchdog", "detail": where})
+            V.append({"signature": "cli-hang", "what": f"the command line did not terminate within the {watchdog:g} s watchdog", "detail": {**where, "frame": c["hang"]}})
             continue
         if c.get("escaped"):
             V.append({"signature": sig_of("cli-escaped", c["escaped"]), "what": "an exception escaped main_cli altogether", "detail": {**where, **c["escaped"]}})
@@ -387,7 +400,7 @@ def jsonable(case):
         else:
             fs[k] = v
     out = {"files": [list(x) for x in case["files"]], "fs": fs, "charset": case.get("charset", "bk")}
-    for k in ("argv", "n", "stream", "tags"):
+    for k in ("argv", "n", "stream", "tags", "acyclic"):
         if case.get(k) is not None:
             out[k] = case[k]
     return out
@@ -404,8 +417,8 @@ def minimise(case, signature, watchdog=None, max_trials=400):
     trials = [0]
     case = dict(case)
     case["fs"] = dict(case.get("fs") or {})
-    wd = watchdog or (4 if signature.startswith(("hang", "cli-hang")) else 10)
-    budget = 60 if signature.startswith(("hang", "cli-hang")) else max_trials
+    wd = watchdog or (40 if signature.startswith(("hang", "cli-hang")) else 10)
+    budget = 25 if signature.startswith(("hang", "cli-hang")) else max_trials
 
     def pred(files, fs):
         if trials[0] >= budget:
